@@ -18,7 +18,8 @@ type ResSpec struct {
 	Vals map[string]interface{} // attribute name -> value of the declared Go type; relationship name -> string / []string
 }
 
-var idPool = []string{"1", "2", "3", "a", "b", "id-1", "x y", "é", `q"`, "0", "10", "9", "abc", "ab", "B", "<&>", "a/b", "%41"}
+var idPool = []string{"1", "2", "3", "a", "b", "id-1", "x y", "é", `q"`, "0", "10", "9", "abc", "ab", "B", "<&>", "a/b", "%41",
+	"ctl\x01", "del\x7f", "a\vb", "bell\a", "tag\U000e0001", "nl\n", "back\\slash", "\u2028sep"}
 
 // DrawID draws a non-empty ID.
 func DrawID(t *core.Tape) string { return idPool[t.Draw(len(idPool))] }
@@ -34,6 +35,11 @@ func DrawRelValue(t *core.Tape, toOne bool) interface{} {
 	if toOne {
 		if t.Bool(1, 4) {
 			return ""
+		}
+
+		// related IDs are IDs too: now and then one that JSON must escape
+		if t.Bool(1, 8) {
+			return idPool[t.Draw(len(idPool))]
 		}
 
 		return PlainIDs[t.Draw(len(PlainIDs))]
@@ -57,6 +63,10 @@ func DrawRelValue(t *core.Tape, toOne bool) interface{} {
 	// a repeated ID is a legal []string too
 	if n >= 2 && t.Bool(1, 6) {
 		ids[n-1] = ids[0]
+	}
+
+	if t.Bool(1, 8) {
+		ids[t.Draw(n)] = idPool[t.Draw(len(idPool))]
 	}
 
 	return ids
